@@ -3552,8 +3552,23 @@ def stream():
         envs.extend(ge.enum(ev))
     return json.loads(json.dumps(envs).replace(json.dumps(tmp)[1:-1], "TMP"))
 out["stream"] = guarded(stream)
+def cli(script, args):
+    import io, contextlib, runpy
+    buf = io.StringIO()
+    old_argv = sys.argv
+    sys.argv = [script] + args
+    try:
+        with contextlib.redirect_stdout(buf):
+            runpy.run_path(os.path.join(inp["scripts"], script), run_name="__main__")
+    finally:
+        sys.argv = old_argv
+    return buf.getvalue().replace(json.dumps(tmp)[1:-1], "TMP").replace(tmp, "TMP")
+out["cli_events"] = guarded(lambda: [json.loads(l) for l in cli("generate_events.py", ["--no-source"] + paths).splitlines()])
+out["cli_events_ast_only"] = guarded(lambda: [json.loads(l) for l in cli("generate_events.py", ["--no-pickles", "--no-source"] + paths[:2]).splitlines()])
+out["cli_tokens"] = guarded(lambda: cli("generate_tokens.py", paths))
 out["md"] = guarded(lambda: Parser().parse(inp["md"], GherkinInMarkdownTokenMatcher("en")))
-out["table"] = GD.DIALECTS == json.load(open(inp["master"], encoding="utf8"))
+with open(inp["master"], encoding="utf8") as f:
+    out["table"] = GD.DIALECTS == json.load(f)
 for pth in paths:
     os.remove(pth)
 os.rmdir(tmp)
@@ -3570,17 +3585,19 @@ def o_environment_matrix(ctx):
     docs = ["# language: fr\n@é @t\nFonctionnalité: café \U0001F600\n  déjà vu\n\n  Contexte:\n    Soit un élève\n      | ça | là |\n  Plan du scénario: o <a>\n    Quand <a> à l'œuvre\n      \"\"\"md\n      naïve <a>\n      \"\"\"\n    Exemples:\n      | a |\n      | ü |\n",
             "Feature: f\n  Background:\n    Given b\n      | x | y |\n  Rule: r\n    @s\n    Scenario Outline: o\n      Given <a>\n        ```\n        <a> \\`\\`\\`\n        ```\n      And c\n        \"\"\"\n        second\n        \"\"\"\n      And d\n        ```\n        third\n        ```\n      Examples:\n          indented description after doc strings\n        | a |\n        | 1 |\n        | 2 |\n\n  Rule: q\n    Example: e\n      * star\r\n",
             "Feature: bad\n  Scenario: s\n    Given g\n      | a |\n      | b | c |\n    oops é\n  @x y\n",
-            "# only 日本語\n", ""]
+            "# only 日本語\n", "", "\ufeffFeature: with a byte-order mark\n  Scenario: s\n    Given g\n"]
     md = "# Feature: f\n\n## Scenario: s\n\n* Given a\n  | a |\n  |---|\n  | 1 |\n\n`@t`\n## Scenario: t\n- When b\n"
-    inp = json.dumps({"docs": docs, "md": md, "master": os.path.join(REPO, "gherkin-languages.json")})
+    inp = json.dumps({"docs": docs, "md": md, "master": os.path.join(REPO, "gherkin-languages.json"), "scripts": os.path.join(REPO, "python", "scripts")})
     base_env = dict(os.environ, PYTHONPATH=os.path.join(REPO, "python"), PYTHONDONTWRITEBYTECODE="1", PYTHONHASHSEED="0")
     variants = {"default": ([], {}),
                 "C locale": ([], {"LC_ALL": "C", "LANG": "C", "PYTHONUTF8": "0", "PYTHONCOERCECLOCALE": "0"}),
-                "-O": (["-O"], {}), "-OO": (["-OO"], {}), "POSIX locale": (["-X", "utf8=0"], {"LC_ALL": "POSIX", "LANG": "POSIX", "PYTHONCOERCECLOCALE": "0"})}
+                "-O": (["-O"], {}), "-OO": (["-OO"], {}), "-W error": (["-W", "error"], {}), "-X dev -W error": (["-X", "dev", "-W", "error"], {}), "POSIX locale": (["-X", "utf8=0"], {"LC_ALL": "POSIX", "LANG": "POSIX", "PYTHONCOERCECLOCALE": "0"})}
     outs = {}
     for name, (flags, env) in variants.items():
         try:
             pr = subprocess.run([sys.executable] + flags + ["-c", _ENV_SCRIPT], input=inp, capture_output=True, text=True, env=dict(base_env, **env), timeout=600)
+            # stderr is not compared: the pinned tree itself leaves the file of a scanner to the garbage collector (a ResourceWarning
+            # there is printed, never raised)
             outs[name] = pr.stdout if pr.returncode == 0 else "exit %d: %s" % (pr.returncode, pr.stderr[-400:])
         except subprocess.TimeoutExpired:
             outs[name] = None       # a busy machine is not a finding
@@ -3599,6 +3616,11 @@ def o_environment_matrix(ctx):
                 return {"what": "the loaded dialect table differs from the master table"}
             if canon(b["strings"]) != canon(b["paths"]):
                 return {"what": "a document read by path parses differently from the same text passed as a string"}
+            api = [e for e in b["stream"] if "source" not in e] if isinstance(b["stream"], list) else b["stream"]
+            if canon(b["cli_events"]) != canon(api):
+                return {"what": "scripts/generate_events.py --no-source prints other envelopes than the stream API yields for the same files", "cli": canon(b["cli_events"])[:300]}
+            if isinstance(b["cli_tokens"], str) and isinstance(b["tokens"][0], str) and b["cli_tokens"] != "".join(t + "\n" for t in b["tokens"] if isinstance(t, str)) and all(isinstance(t, str) for t in b["tokens"]):
+                return {"what": "scripts/generate_tokens.py prints other listings than TokenFormatterBuilder gives for the same files"}
             return None
         if o != base:
             try:
@@ -3856,3 +3878,82 @@ def c12_private_characters(ctx):
 
 P.PROPS["C12"]["streams"].append(c12_private_characters)
 P.PROPS["C09"]["streams"].append(c12_private_characters)
+
+
+def o_reentrancy_and_copies(ctx):
+    """(a) a builder whose callbacks parse other documents with other parsers (re-entrancy through user code) gets the
+    result it gets otherwise, and so do the inner parses; (b) results survive copy.deepcopy, pickle and JSON unchanged;
+    (c) copies (copy.deepcopy, pickle) of a used parser / matcher / compiler behave like the originals and do not share
+    state with them"""
+    import copy as _copy
+    import pickle as _pickle
+    impl = impl_mod()
+    docs = ["@t\nFeature: f\n  # c\n  Background:\n    Given b\n      | x |\n  Scenario Outline: o <a>\n    Given <a>\n      \"\"\"\n      d\n      \"\"\"\n    @e\n    Examples:\n      | a |\n      | 1 |\n",
+            "# language: fr\nFonctionnalité: f\n  Scénario: s\n    Soit x\n    Et y\n", "Feature: bad\n  Scenario: s\n    Given g\n    oops\n  @a b\n", ""]
+
+    def run(p, src, m=None):
+        try:
+            return canon(p.parse(impl.source_arg(src), m) if m is not None else p.parse(impl.source_arg(src)))
+        except impl.CompositeParserException as e:
+            return canon([impl.err_json(x) for x in e.errors])
+    items = [("reenter", a, b) for a in docs for b in docs] + [("result-copies", a, None) for a in docs] + [("object-copies", a, b) for a in docs for b in docs[:3]]
+
+    def check(it):
+        kind, a, b = it
+        if kind == "reenter":
+            want_a = run(impl.Parser(impl.AstBuilder(impl.CountingIdGen())), a)
+            want_b = run(impl.Parser(impl.AstBuilder(impl.CountingIdGen())), b)
+            inner = []
+
+            class Nosy(impl.AstBuilder):
+                def build(self, token):
+                    inner.append(run(impl.Parser(impl.AstBuilder(impl.CountingIdGen())), b))
+                    return super().build(token)
+
+                def end_rule(self, rule_type):
+                    inner.append(run(impl.Parser(impl.AstBuilder(impl.CountingIdGen())), b))
+                    return super().end_rule(rule_type)
+            got = run(impl.Parser(Nosy(impl.CountingIdGen())), a)
+            if got != want_a:
+                return {"what": "a parse whose builder callbacks parse other documents gives another result", "want": want_a[:300], "got": got[:300]}
+            if any(x != want_b for x in inner):
+                return {"what": "a parse started from inside a builder callback of another parse gives another result"}
+            return None
+        if kind == "result-copies":
+            g = impl.CountingIdGen()
+            p = impl.Parser(impl.AstBuilder(g))
+            try:
+                d = p.parse(impl.source_arg(a))
+            except impl.CompositeParserException:
+                return None          # (the pinned tree's exception classes cannot be pickled: nothing is asked of them here)
+            d["uri"] = "u"
+            ps = impl.Compiler(g).compile(d)
+            for v in (d, ps):
+                if canon(_copy.deepcopy(v)) != canon(v) or canon(_pickle.loads(_pickle.dumps(v))) != canon(v) or json.loads(json.dumps(v)) != v:
+                    return {"what": "a result does not survive deepcopy / pickle / JSON unchanged (or is not made of plain dicts, lists, strings and None)"}
+            return None
+        g = impl.CountingIdGen()
+        p, m = impl.Parser(impl.AstBuilder(g)), impl.TokenMatcher("en")
+        run(p, b, m)
+        for clone in (_copy.deepcopy, lambda o: _pickle.loads(_pickle.dumps(o))):
+            try:
+                p2, m2 = clone((p, m))
+            except Exception as e:  # noqa
+                return {"what": "a used parser / matcher cannot be copied: %r" % (e,)}
+            p2.ast_builder.id_generator.n = 0
+            g.n = 0
+            got, want = run(p2, a, m2), run(p, a, m)
+            if got != want:
+                return {"what": "a copy of a used parser / matcher behaves differently from the original", "want": want[:300], "got": got[:300]}
+            g.n = 0
+            run(p2, docs[1], m2)
+            g.n = 0
+            again = run(p, a, m)
+            if again != want:
+                return {"what": "using a copy of a parser / matcher changes what the original does", "want": want[:300], "got": again[:300]}
+        return None
+    return oracle("reentrancy-and-copies", items, check, describe=lambda it: [it[0], (it[1] or "")[:30], (it[2] or "")[:30]])
+
+
+for _pid in ("C15", "C03", "C06", "C01"):
+    P.PROPS[_pid]["streams"].append(o_reentrancy_and_copies)
